@@ -277,13 +277,13 @@ func (fr *Frame) closeLoop(lp *Loop, b *ssa.BasicBlock) {
 			ex.oos("%s: %s invariant %s (preservation): %v", shortName(fr.fn.String()), name, cl.Label, err)
 			continue
 		}
-		ex.oblige(fmt.Sprintf("%s/inv:%s/preserved@b%d", name, cl.Label, b.Index), "inv-preserved", pos, g, t)
+		ex.oblige(fmt.Sprintf("%s/inv:%s/preserved%s", name, cl.Label, fr.backEdgeTag(lp, b)), "inv-preserved", pos, g, t)
 	}
 	for _, p := range phis {
 		if p.Comment == "rangeindex" {
 			if tv, ok := next[p].(TV); ok {
 				if n := fr.rangeLen(lp, p); n != nil {
-					ex.oblige(fmt.Sprintf("%s/inv:rangeindex/preserved@b%d", name, b.Index), "inv-preserved", pos, g, And(Ge(tv.T, IntC(-1)), Lt(tv.T, n)))
+					ex.oblige(fmt.Sprintf("%s/inv:rangeindex/preserved%s", name, fr.backEdgeTag(lp, b)), "inv-preserved", pos, g, And(Ge(tv.T, IntC(-1)), Lt(tv.T, n)))
 				}
 			}
 		}
@@ -298,7 +298,7 @@ func (fr *Frame) closeLoop(lp *Loop, b *ssa.BasicBlock) {
 			m0, err0 := e0.EvalTerm(d.Expr)
 			m1, err1 := env.EvalTerm(d.Expr)
 			if err0 == nil && err1 == nil {
-				ex.oblige(fmt.Sprintf("%s/decreases@b%d", name, b.Index), "decreases", pos, g, And(Ge(m0, IntC(0)), Lt(m1, m0)))
+				ex.oblige(fmt.Sprintf("%s/decreases%s", name, fr.backEdgeTag(lp, b)), "decreases", pos, g, And(Ge(m0, IntC(0)), Lt(m1, m0)))
 			} else {
 				ex.oos("%s: %s decreases: %v %v", shortName(fr.fn.String()), name, err0, err1)
 			}
@@ -676,4 +676,25 @@ func domDepth(b *ssa.BasicBlock) int {
 func isConst(v ssa.Value) bool {
 	_, ok := v.(*ssa.Const)
 	return ok
+}
+
+// backEdgeTag names the back edge from b: empty when the loop has a single back edge,
+// otherwise its ordinal among the loop's back edges (in block order).
+func (fr *Frame) backEdgeTag(lp *Loop, b *ssa.BasicBlock) string {
+	var srcs []int
+	for _, p := range lp.Header.Preds {
+		if fr.backEdg[[2]int{p.Index, lp.Header.Index}] {
+			srcs = append(srcs, p.Index)
+		}
+	}
+	if len(srcs) <= 1 {
+		return ""
+	}
+	sort.Ints(srcs)
+	for i, s := range srcs {
+		if s == b.Index {
+			return fmt.Sprintf("#%d", i+1)
+		}
+	}
+	return ""
 }
